@@ -271,6 +271,12 @@ def reason_bytes(p):
     return {p.encode("latin-1", "replace"), p.encode("utf-8")}
 
 
+def _fold(name):
+    """Case-insensitive key for header names, robust to the Unicode case mappings str.capitalize()
+    applies (dotless i -> I, long s -> S, Kelvin sign -> k, sharp s -> Ss): letters only, never separators."""
+    return name.upper().casefold()
+
+
 def header_safe(s):
     return all(c == "\t" or 0x20 <= ord(c) <= 0x7E or 0x80 <= ord(c) <= 0xFF for c in s)
 
@@ -422,13 +428,13 @@ def evaluate(api, shape, payload):
             if api == "low_value":
                 value = text.encode("latin-1").strip(b" \t")
             elif api == "low_name":
-                name = text.lower().encode("latin-1")
+                name = text.lower().encode("latin-1", "replace")
             else:
                 want_reason = text.encode("utf-8")
             intended = [(name, value)]
             reason = want_reason
             # the lower layer takes the name verbatim: compare the raw line, not a client's reading of it
-            raw_name = text.encode("latin-1") if api == "low_name" else b"X-Test"
+            raw_name = text if api == "low_name" else "X-Test"
             raw_value = text.encode("latin-1") if api == "low_value" else b"v"
             others = [ln for ln in r.lines if ln.lower() != b"content-length: 4"]
             if len(others) != 1 or len(r.lines) != 2:
@@ -436,8 +442,8 @@ def evaluate(api, shape, payload):
             ln = others[0]
             tail = b": " + raw_value
             # (HTTPHeaders normalises the case of names, for non-ASCII letters too: compare casefolded)
-            if not ln.endswith(tail) or ln[:-len(tail)].decode("latin-1").casefold() != raw_name.decode("latin-1").casefold():
-                return problem("C07.intended_line_differs", {"line": ln, "want": raw_name + b": " + raw_value})
+            if not ln.endswith(tail) or _fold(ln[:-len(tail)].decode("latin-1")) != _fold(raw_name):
+                return problem("C07.intended_line_differs", {"line": ln, "want": (raw_name, raw_value)})
             intended = "raw-checked"
             explain_strict = not header_safe(text) or (api == "low_name" and not wu.is_token(text)) \
                 or (api == "low_reason" and text == "")
